@@ -400,6 +400,18 @@ def traj_cli(run, case, rng, work):
             relocated.append("run_%d" % i)
         argv = [new_paths.get(a, a) for a in argv]
         argv = [base if a == ref[0] else a for a in argv]
+    n_positional = 1 + len(trajs)
+    if o["use_ref"] and ref is not None and not relocated and rng.random() < .35:
+        # shell-glob usage (evo_traj tum ./*.txt --ref ./gt.txt): the reference is also among the
+        # listed files, spelled the same way; it is the reference, not one more trajectory
+        base = os.path.basename(ref[0])
+        rel = os.path.relpath(ref[0], out_dir)
+        spelled = [ref[0], rel, "./" + rel, rel.replace("/", "//", 1),
+                   os.path.join(os.path.dirname(rel), ".", base)][rng.integers(5)]
+        argv = [spelled if a == ref[0] else a for a in argv]
+        argv.insert(int(rng.integers(1, n_positional + 1)), spelled)
+        n_positional += 1
+        run.hit("reference also listed among the input files")
     if rng.random() < .25:
         # the working directory still holds the exports of an earlier run (warnings are off:
         # they are replaced without asking)
@@ -411,7 +423,7 @@ def traj_cli(run, case, rng, work):
                 open(os.path.join(out_dir, st + "." + kind), "w").write("1 2 3 4 5 6 7 8 9 10 11 12\n" * 40 if kind == "kitti"
                                                                           else "0.5 1 2 3 0 0 0 1\n" * 40)
     if not case.get("exe") and rng.random() < .15:
-        argv = C01.move_to_config(rng, argv, out_dir, 1 + len(trajs))
+        argv = C01.move_to_config(rng, argv, out_dir, n_positional)
     if case.get("exe"):
         # the real executable in a fresh interpreter
         pr = cli.run_subprocess("traj", argv, out_dir, os.environ["HOME"])
